@@ -15,7 +15,7 @@ import z3
 
 from .values import (
     BoundMethod, BuiltinVal, ClassVal, Closure, EnumVal, ExcVal, FuncVal, HDict, HInst, HList, HSymMap, HexStr,
-    ModuleVal, Opaque, Ref, SuperVal, SymBytes, SymSeq, Unsupported, is_intlike, is_sym, is_symbool, is_symint,
+    ModuleVal, Opaque, Ref, Rope, SuperVal, SymBytes, SymSeq, Unsupported, is_intlike, is_sym, is_symbool, is_symint,
     to_z3bool, to_z3int,
 )
 
@@ -120,8 +120,8 @@ def do_binop(I, op, a, b, st, node=None):
             return V(Opaque("str"), st)
         if isinstance(a, (bytes, SymBytes)) and isinstance(b, (bytes, SymBytes)):
             return V(bytes_concat(a, b), st)
-        if isinstance(a, (bytes, SymBytes, SymSeq)) and isinstance(b, (bytes, SymBytes, SymSeq)):
-            return V(seq_concat(I, a, b, st), st)
+        if isinstance(a, (bytes, SymBytes, SymSeq, Rope)) and isinstance(b, (bytes, SymBytes, SymSeq, Rope)):
+            return V(rope_norm(Rope([a, b])), st)
         if isinstance(a, tuple) and isinstance(b, tuple):
             return V(a + b, st)
     if op == "Mult":
@@ -208,7 +208,61 @@ def bytes_concat(a, b):
     return SymBytes(r)
 
 
+def rope_norm(r):
+    """A rope of a single chunk is that chunk; an empty rope is b''."""
+    if not r.chunks:
+        return b""
+    if len(r.chunks) == 1:
+        c = r.chunks[0]
+        if isinstance(c, SymBytes) and all(isinstance(x, int) for x in c.items):
+            return bytes(c.items)
+        return c
+    return r
+
+
+def as_chunks(v):
+    if isinstance(v, Rope):
+        return list(v.chunks)
+    return list(Rope([v]).chunks)
+
+
+def rope_at(chunks, i):
+    """element i of the concatenation (i a z3 Int, assumed in range)"""
+    r = z3.IntVal(0)
+    offs = []
+    acc = 0
+    for c in chunks:
+        offs.append(acc)
+        acc = acc + to_z3int(seq_len(c)) if not isinstance(acc, int) or is_sym(seq_len(c)) else acc + seq_len(c)
+    for c, o in reversed(list(zip(chunks, offs))):
+        r = z3.If(i >= o, to_z3int(seq_at(c, i - o)), r)
+    return r
+
+
+def rope_equal(I, a, b, st, node=None):
+    ca, cb = as_chunks(a), as_chunks(b)
+    if len(ca) == len(cb) and all(type(x) is type(y) and (not isinstance(x, SymBytes) or len(x.items) == len(y.items)) for x, y in zip(ca, cb)):
+        r = True
+        for x, y in zip(ca, cb):
+            r = I.conj(r, equal(I, x, y, st, node))
+        return r
+    la = sum_len(ca)
+    lb = sum_len(cb)
+    i = z3.Int("i!rope")
+    return z3.And(to_z3int(la) == to_z3int(lb), z3.ForAll([i], z3.Implies(z3.And(i >= 0, i < to_z3int(la)), rope_at(ca, i) == rope_at(cb, i))))
+
+
+def sum_len(chunks):
+    t = 0
+    for c in chunks:
+        n = seq_len(c)
+        t = (to_z3int(t) + to_z3int(n)) if (is_sym(t) or is_sym(n)) else t + n
+    return z3.simplify(t) if is_sym(t) else t
+
+
 def seq_len(v):
+    if isinstance(v, Rope):
+        return sum_len(v.chunks)
     if isinstance(v, (bytes, str)):
         return len(v)
     if isinstance(v, SymBytes):
@@ -330,6 +384,10 @@ def equal(I, a, b, st, node=None):
         return to_z3int(a) == to_z3int(b)
     if isinstance(a, str) and isinstance(b, str):
         return a == b
+    if isinstance(a, Rope) or isinstance(b, Rope):
+        if isinstance(a, (bytes, SymBytes, SymSeq, Rope)) and isinstance(b, (bytes, SymBytes, SymSeq, Rope)):
+            return rope_equal(I, a, b, st, node)
+        return False
     if isinstance(a, (bytes, SymBytes, SymSeq)) and isinstance(b, (bytes, SymBytes, SymSeq)):
         la, lb = seq_len(a), seq_len(b)
         if isinstance(la, int) and isinstance(lb, int):
@@ -944,6 +1002,8 @@ def builtin_len(I, v, st, node=None):
         return V(len(v.items), st)
     if isinstance(v, SymSeq):
         return V(v.length, st)
+    if isinstance(v, Rope):
+        return V(sum_len(v.chunks), st)
     if isinstance(v, HexStr):
         x = to_z3int(v.v)
         d = HEXLEN(z3.If(x < 0, -x, x))
